@@ -21,6 +21,8 @@ def plan(tier, seed):
         specs.append({"name": f"rand{i}", "kind": "rand", "index": i, "cases": 8000 if tier == "quick" else 400000,
                       "budget_s": 60 if tier == "quick" else 420})
     specs.append({"name": "contracts", "kind": "contracts"})
+    if tier == "thorough":
+        specs.append({"name": "repo-tests", "kind": "repo_tests", "primitive_monitors": False})
     return specs
 
 
@@ -105,6 +107,11 @@ def run_shard(spec, acc, ctx):
     rng = ctx.rng
     mon = Mon(acc)
     kind = spec["kind"]
+    if kind == "repo_tests":
+        from vlib import repotests
+        repotests.run(acc, ctx, ["test/test_sse_schemes/test_CJJ14_PiBas.py", "test/test_sse_schemes/test_CT14_Pi.py",
+                                 "test/test_sse_schemes/test_CJJ14_PiPack.py"], ["insitu:aes"])
+        return
     if kind == "exh":
         kl = spec["key_length"]
         cls = se.get_symmetric_encryption_implementation(rng.choice(ALIASES))
@@ -233,6 +240,7 @@ def finish(m, tier, seed):
         "wrong_key": {"raised": c.get("dec.wrong_key.raised", 0), "returned_other": c.get("dec.wrong_key.returned", 0)},
         "contract_checks": {k[9:]: v for k, v in c.items() if k.startswith("contract.")},
         "insitu_contract_evaluations": {k: v for k, v in c.items() if k.startswith("insitu.")},
+        "repository_tests_under_monitors": {k: v for k, v in c.items() if k.startswith("repo_tests.")},
     }
     return {"coverage": cov, "inconclusive": inc,
             "assumptions": ["the `cryptography` wheel's AES-CBC primitive is the trusted reference cipher",
